@@ -93,7 +93,7 @@ def run(rep, tier, seed):
                     vh = numpy.array(v, dtype=float) / 2
                     check("jac_vec (int point, fractional direction)", UTPM.extract_jac_vec(f(UTPM.init_jac_vec(x, vh))), numpy.dot(jac, vh), d)
                     check("hess_vec (int point, fractional direction)", UTPM.extract_hess_vec(N, f(UTPM.init_hess_vec(x, vh))), numpy.dot(hess, vh), d)
-                    g = lambda z: algopy.exp(0.125 * f(z))
+                    g = lambda z: algopy.exp(0.125 * f(z)) + (z[0] + 7) / (z[0] * z[0] + 3)
                     xf = x.astype(float)
                     for nm, call in (("jacobian", lambda xx: UTPM.extract_jacobian(g(UTPM.init_jacobian(xx)))),
                                      ("hessian", lambda xx: UTPM.extract_hessian(N, g(UTPM.init_hessian(xx)))),
@@ -143,6 +143,48 @@ def run(rep, tier, seed):
                      (g + c) * s * jb, (g - numpy.sin(s * m0)) * s * s * numpy.outer(jb, jb) + (g + c) * s * hb, {},
                      "exp+sin of x^%s" % b["alpha"], dtypes=(float,))
             rep.case((N, pt, v, "smooth"), nontrivial=True)
+    # matrix-valued programs: J v is coefficient 1 of the propagated curve x + t v (exact by C02/C07)
+    rng = numpy.random.RandomState(seed % 2 ** 31)
+    for shp, F in (((2, 3), lambda X: algopy.dot(algopy.dot(X, X.T), X)), ((3, 3), lambda X: algopy.dot(X, X)), ((2, 2), lambda X: algopy.inv(X + 3 * numpy.eye(2)))):
+        X0 = rng.randint(-2, 3, size=shp).astype(float); V0 = rng.randint(-2, 3, size=shp).astype(float)
+        rep.case(("jac_vec matrix", shp), nontrivial=True)
+        try:
+            y = F(UTPM.init_jac_vec(X0, V0))
+            got = numpy.asarray(UTPM.extract_jac_vec(y))
+            if got.shape != y.data[1, 0].shape or not numpy.allclose(got, y.data[1, 0], rtol=1e-12, atol=1e-12):
+                rep.violation("extract_jac_vec of a matrix-valued function", {"input_shape": shp, "got_shape": list(got.shape), "expected_shape": list(y.data[1, 0].shape)})
+        except Exception as ex:
+            rep.violation("jac_vec of a matrix-valued function raises " + type(ex).__name__, {"what": repr(ex)[-200:]})
+    # interleaved use: a second init_tensor before the first result is extracted must not matter
+    for (N1, d1, N2, d2) in ((1, 2, 1, 3), (3, 2, 2, 5), (2, 2, 3, 1), (2, 3, 2, 2)):
+        f = lambda x: algopy.exp(0.25 * algopy.sum(x * x)) + algopy.prod(x + 1.0)
+        x1 = numpy.arange(1, N1 + 1) * 0.5; x2 = numpy.arange(1, N2 + 1) * 0.25
+        rep.case(("tensor interleaved", N1, d1, N2, d2), nontrivial=True)
+        try:
+            ref = UTPM.extract_tensor(N1, f(UTPM.init_tensor(d1, x1)), as_full_matrix=False)
+            y1 = f(UTPM.init_tensor(d1, x1))
+            y2 = f(UTPM.init_tensor(d2, x2))
+            got = UTPM.extract_tensor(N1, y1, as_full_matrix=False)
+            if not numpy.allclose(got, ref, rtol=1e-12, atol=1e-12):
+                rep.violation("extract_tensor depends on a later init_tensor call", {"first": [N1, d1], "second": [N2, d2]})
+        except Exception as ex:
+            rep.violation("interleaved tensor drivers raise " + type(ex).__name__, {"what": repr(ex)[-200:]})
+    # integer-typed points of every width
+    for dt in (numpy.int32, numpy.int16, numpy.uint8, numpy.int64):
+        g = lambda z: algopy.exp(0.125 * z[0] * z[1]) / (z[1] + 1.0) + z[0] / z[1] + algopy.sqrt(z[0])
+        xi = numpy.array([2, 3], dtype=dt); xf = xi.astype(float)
+        rep.case(("int dtype", dt.__name__), nontrivial=True)
+        for nm, call in (("jacobian", lambda xx: UTPM.extract_jacobian(g(UTPM.init_jacobian(xx)))),
+                         ("jac_vec", lambda xx: UTPM.extract_jac_vec(g(UTPM.init_jac_vec(xx, numpy.array([0.5, -1.5]))))),
+                         ("hessian", lambda xx: UTPM.extract_hessian(2, g(UTPM.init_hessian(xx)))),
+                         ("hess_vec", lambda xx: UTPM.extract_hess_vec(2, g(UTPM.init_hess_vec(xx, numpy.array([0.5, -1.5]))))),
+                         ("tensor d=3", lambda xx: UTPM.extract_tensor(2, g(UTPM.init_tensor(3, xx)), as_full_matrix=False))):
+            try:
+                a_, b_ = numpy.asarray(call(xi), dtype=float), numpy.asarray(call(xf), dtype=float)
+                if a_.shape != b_.shape or not numpy.allclose(a_, b_, rtol=1e-10, atol=1e-12):
+                    rep.violation("%s at a point of dtype %s differs from the same point as float64" % (nm, dt.__name__), {"got": a_.tolist(), "expected": b_.tolist()})
+            except Exception as ex:
+                rep.violation("%s at a point of dtype %s raises %s" % (nm, dt.__name__, type(ex).__name__), {"what": repr(ex)[-200:]})
     rep.sample({k: recs[len(recs) // 2][k] for k in ("alpha", "pt", "v", "jac", "hess")})
     # binding self-test
     r = next(r for r in recs if sum(r["alpha"]) >= 2)
